@@ -313,6 +313,7 @@ def nu_eval_spline_2d_cross_11(X, Y, kts1, deg1, kts2, deg2, coeffs, z):
                 theCoeffs[k, 0] = theCoeffs[k, 0]*basis2[0]
                 for l in range(1, deg2+1):
                     theCoeffs[k, 0] += theCoeffs[k, l]*basis2[l]
+                z[i, j] += theCoeffs[k, 0]*basis1[k]
 
 
 # pythran export nu_eval_spline_2d_cross(float64[:], float64[:], float64[:], int, float64[:], int, float64[:,:], float[:,:], int, int)
